@@ -55,6 +55,7 @@ Proof.
   - (* Reversed *) auto.
   - (* Snapshot *) rewrite (snapshot_ok s H0). auto.
   - (* SelfOp: not an operation with an explicit operand *) auto.
+  - (* Cmp *) rewrite (cmp_ok s k o H V). auto.
 Qed.
 
 Lemma s_symdiff_self l : s_symdiff l (Opd true l) = [].
